@@ -846,8 +846,12 @@ fn gen_pipe(rng: &mut Rng, k: usize) -> String {
 
 // ------------------------------------------------------------------ further error sources: stdin, the output device, the configuration file
 
-const CLASS_FLUSH: &str = "write-error-at-final-flush-ignored";
-const CLASS_CONFIG: &str = "config-file-error-does-not-set-exit-status";
+/// `cfg_sx` with the two environment inputs of the model: the configuration file could not be read, and what the
+/// final flush of stdout returns (o | p | e)
+fn cfg_env_sx(mode: &str, par: bool, q: bool, config_err: bool, flush: &str) -> String {
+    let base = cfg_sx(mode, par, q, false, true, false, true, true);
+    format!("{} {} {})", base.trim_end_matches(')'), config_err as u8, flush)
+}
 const MISC_KINDS: [&str; 18] = [
     "config-missing", "config-dir", "patfile-empty", "stdin-match", "stdin-nomatch", "stdin-dir", "full-std-small", "full-std-big",
     "full-count-small", "full-files-small", "full-files-big", "full-json-small", "full-nomatch", "full-quiet",
@@ -901,13 +905,18 @@ fn run_misc(case: &str, ctx: &mut Ctx, drv: &mut Driver, rep: &mut Report) {
             }
             let diag = out.stderr_str().contains("RIPGREP_CONFIG_PATH");
             if !diag { problems.push(("no diagnostic about the configuration file".into(), "")); }
+            // (F38, fixed by 379b616: the complaint counts as an error; theorem C15_config)
             if out.exit() != 2 {
-                // class — mechanism test: RIPGREP_CONFIG_PATH names something unreadable, rg says so on stderr
-                // (through `message!`, which leaves the error flag alone), and the status is that of an undisturbed run
-                let mech = diag && out.exit() == 0;
-                rep.branch(&format!("class:{}:{}", CLASS_CONFIG, if mech { "attributed" } else { "mechanism-absent" }));
-                problems.push((format!("an error was reported ({}) but the exit status is {}", show(&out.stderr[..out.stderr.len().min(160)]), out.exit()),
-                    if mech { CLASS_CONFIG } else { "" }));
+                problems.push((format!("an error was reported ({}) but the exit status is {}", show(&out.stderr[..out.stderr.len().min(160)]), out.exit()), ""));
+            }
+            let model = drv.ask(&format!("c15.run {} ok (items (f 0 m o) (f 1 m o))", cfg_env_sx("std", par, false, true, "o")));
+            match parse_reply(&model) {
+                Some((m_exit, m_out, m_diags)) => {
+                    if out.exit() != m_exit || m_out.len() != 2 || !m_diags.contains("cfg") {
+                        mproblems.push(format!("rg exit {} / model {}", out.exit(), model));
+                    }
+                }
+                None => mproblems.push(format!("driver replies {}", model)),
             }
         }
         "patfile-empty" => {
@@ -948,13 +957,13 @@ fn run_misc(case: &str, ctx: &mut Ctx, drv: &mut Driver, rep: &mut Report) {
                 }
                 "special-full" => {
                     let out = run_cmd_redirected(&mut mk(&[]), Some(std::path::Path::new("/dev/full")), None);
+                    // (F37, fixed by f052aea: --type-list flushes explicitly, like every other path)
                     if out.exit() != 2 || out.stderr.is_empty() {
-                        // class — mechanism test: --type-list (the one mode that prints through a buffered writer whose final
-                        // flush is left to drop), stdout is /dev/full, and rg behaves exactly as if undisturbed
-                        let mech = mode[0] == "--type-list" && out.exit() == plain.exit() && out.stderr.is_empty();
-                        rep.branch(&format!("class:{}:{}", CLASS_FLUSH, if mech { "attributed" } else { "mechanism-absent" }));
-                        problems.push((format!("rg {} > /dev/full: {} bytes could not be written, yet exit {} stderr {}", mode.join(" "), plain.stdout.len(), out.exit(), show(&out.stderr)),
-                            if mech { CLASS_FLUSH } else { "" }));
+                        problems.push((format!("rg {} > /dev/full: {} bytes could not be written, yet exit {} stderr {}", mode.join(" "), plain.stdout.len(), out.exit(), show(&out.stderr)), ""));
+                    }
+                    let model = drv.ask(&format!("c15.run {} special (items)", cfg_env_sx("std", false, false, false, "e")));
+                    if parse_reply(&model).map_or(true, |(e, _, d)| e != out.exit() || !d.contains("fatal")) {
+                        mproblems.push(format!("rg exit {} / model {}", out.exit(), model));
                     }
                 }
                 "special-pipe" => {
@@ -1026,15 +1035,29 @@ fn run_misc(case: &str, ctx: &mut Ctx, drv: &mut Driver, rep: &mut Report) {
                 if out.exit() != reference.exit() || !out.stderr.is_empty() {
                     problems.push((format!("nothing is written, yet exit {} (undisturbed: {}) stderr {}", out.exit(), reference.exit(), show(&out.stderr)), ""));
                 }
-            } else if out.exit() != 2 || out.stderr.is_empty() {
-                // class — mechanism test: stdout is /dev/full, the undisturbed run writes less than a buffer's worth
-                // (so the only write is the flush when the writer is dropped, whose error is discarded), rg runs a
-                // buffered single-writer path (one thread, or --files), and it behaves exactly as if undisturbed
-                let buffered_path = j == 1 || mode_args[0] == "--files";
-                let mech = reference.stdout.len() < 8192 && !lb && buffered_path && out.exit() == reference.exit() && out.stderr.is_empty();
-                rep.branch(&format!("class:{}:{}", CLASS_FLUSH, if mech { "attributed" } else { "mechanism-absent" }));
-                problems.push((format!("{} bytes could not be written to stdout (No space left on device), yet exit {} stderr {}",
-                    reference.stdout.len(), out.exit(), show(&out.stderr[..out.stderr.len().min(160)])), if mech { CLASS_FLUSH } else { "" }));
+            } else {
+                // (F37, fixed by f052aea: what is still buffered at the end is flushed explicitly; theorem C15_flush)
+                if out.exit() != 2 || out.stderr.is_empty() {
+                    problems.push((format!("{} bytes could not be written to stdout (No space left on device), yet exit {} stderr {}",
+                        reference.stdout.len(), out.exit(), show(&out.stderr[..out.stderr.len().min(160)])), ""));
+                }
+                // the model at this point: small output on a single-writer path = every write is buffered and the final
+                // flush fails; several threads = every BufferWriter::print fails
+                let small_single = reference.stdout.len() < 8192 && !lb && (j == 1 || mode_args[0] == "--files");
+                let model = if small_single {
+                    let m = if mode_args[0] == "--files" { "files" } else { "std" };
+                    Some(drv.ask(&format!("c15.run {} ok (items (f 0 m o) (f 1 m o))", cfg_env_sx(m, par, false, false, "e"))))
+                } else if par && !big && mode_args[0] != "--files" {
+                    Some(drv.ask(&format!("c15.run {} ok (items (f 0 m e) (f 1 m e))", cfg_env_sx("std", true, false, false, "o"))))
+                } else {
+                    None
+                };
+                if let Some(model) = model {
+                    rep.branch(if small_single { "misc:full:model-final-flush" } else { "misc:full:model-buffer-writes" });
+                    if parse_reply(&model).map_or(true, |(e, _, d)| e != out.exit() || d.is_empty()) {
+                        mproblems.push(format!("rg exit {} / model {}", out.exit(), model));
+                    }
+                }
             }
         }
     }
